@@ -152,3 +152,68 @@ type rlocker RWMutex
 
 func (r *rlocker) Lock()   { (*RWMutex)(r).RLock() }
 func (r *rlocker) Unlock() { (*RWMutex)(r).RUnlock() }
+
+// Once mirrors sync.Once. A task parked inside f must not wedge a real mutex, so the guard is a
+// simulated lock.
+type Once struct {
+	m    Mutex
+	done bool
+}
+
+func (o *Once) Do(f func()) {
+	if o.done {
+		return
+	}
+	o.m.Lock()
+	defer o.m.Unlock()
+	if !o.done {
+		defer func() { o.done = true }()
+		f()
+	}
+}
+
+// Cond mirrors sync.Cond over any Locker (normally a simsync.Mutex).
+type Cond struct {
+	L    sync.Locker
+	real *sync.Cond
+}
+
+func NewCond(l sync.Locker) *Cond { return &Cond{L: l, real: sync.NewCond(l)} }
+
+func (c *Cond) r() *sync.Cond {
+	if c.real == nil {
+		c.real = sync.NewCond(c.L)
+	}
+	return c.real
+}
+
+func (c *Cond) Wait() {
+	s, t := simrt.CurTask()
+	if t == nil {
+		c.r().Wait()
+		return
+	}
+	c.L.Unlock()
+	s.LockWait(t, c)
+	c.L.Lock()
+}
+
+func (c *Cond) Signal() {
+	s, t := simrt.CurTask()
+	if t == nil {
+		c.r().Signal()
+		return
+	}
+	simrt.Yield()
+	s.ReleaseOne(c)
+}
+
+func (c *Cond) Broadcast() {
+	s, t := simrt.CurTask()
+	if t == nil {
+		c.r().Broadcast()
+		return
+	}
+	simrt.Yield()
+	s.Release(c)
+}
